@@ -40,7 +40,9 @@ def run_config(pid, mod, config, tier, force):
     F = Facts(config, state)
     ctx = Ctx(pid, F, tier)
     ctx.config = config
-    mod.check(ctx)
+    # a rule module may name further build configurations and the function that checks each
+    # (EXTRA_CONFIGS = {"parquet": check_parquet}); the library configurations run check()
+    getattr(mod, "EXTRA_CONFIGS", {}).get(config, mod.check)(ctx)
     return ctx, state
 
 
@@ -78,8 +80,10 @@ def main():
     configs = ["default"]
     if tier == "thorough":
         configs.append("fault-proving")
+    configs += [c for c in getattr(mod, "EXTRA_CONFIGS", {}) if c not in configs]
     all_obs = []
     states = {}
+    stats = None
     try:
         for cfg in configs:
             force = False
@@ -102,7 +106,8 @@ def main():
             for ob in ctx.obligations:
                 ob["config"] = cfg
                 all_obs.append(ob)
-            stats = ctx.F.stats()
+            if stats is None or cfg in ("default", "fault-proving"):
+                stats = ctx.F.stats()
     except factsmod.BuildError as e:
         print(f"ERROR: cannot extract facts from the current tree: {e}", file=sys.stderr)
         sys.exit(2)
@@ -214,7 +219,8 @@ def write_evidence(pid, mod, tier, seed, obs, violations, known_hit, stats, stat
         },
         "assumptions": [
             "MIR is taken from rustc nightly (1.97) while the product is built with 1.93; only front-end facts (resolution, unoptimised CFG shape) are used",
-            "analysed configuration: library targets, non-test, features p2p,relayer,rpc,shared-sequencer (+fault-proving in thorough); code under cfg(feature=\"wasm-executor\") / test-helpers is not analysed",
+            "analysed configuration: library targets, non-test, features p2p,relayer,rpc,shared-sequencer (+fault-proving in thorough); code under cfg(feature=\"wasm-executor\") / test-helpers is not analysed"
+            + ("; additionally fuel-core-chain-config with feature parquet (the snapshot file format)" if "parquet" in configs else ""),
             "each rule decides a structural necessary condition of the property, not the behavioural statement itself",
         ],
         "wall_s": round(wall, 3),
